@@ -134,6 +134,20 @@ def roundtrip(ctx, make_ast, label, text_key, case, nontrivial,
   b3 = pickle_utils.Serialize(dast)
   ctx.check(b3 == b, "re-serialize-not-byte-stable",
             "%s: Serialize(decoded.ast) != b" % label, case)
+  # decoding is a pure function of the bytes: after a decoded AST has been
+  # linked in place (what a loader does with it), decoding the same bytes
+  # again still gives an unlinked AST that encodes to the same bytes
+  try:
+    d2 = pickle_utils.DecodeAst(b)
+    d2.ast.Visit(visitors.FillInLocalPointers({"": d2.ast,
+                                               d2.ast.name: d2.ast}))
+    d3 = pickle_utils.DecodeAst(b)
+    again = pickle_utils.Encode(d3)
+  except RecursionError:
+    again = None
+  ctx.check(again == b, "decode-depends-on-earlier-decodes",
+            "%s: after linking a decoded AST in place, DecodeAst of the same "
+            "bytes no longer encodes to them" % label, case)
   # a second, independent serialisation of a fresh equal AST gives the bytes
   b4 = pickle_utils.Serialize(make_ast())
   ctx.check(b4 == b, "serialize-not-deterministic",
@@ -427,7 +441,9 @@ def replay(ctx, case):
     r = an.infer(case["src"], module_name="m")
     roundtrip(ctx, lambda: serialize_ast.PrepareForExport(
         "m", r.ast, r.ret.context.loader), "program", "P:" + case["src"],
-              case, True)
+              case, True,
+              compare_decl=not __import__("re").search(
+                  r"^import [\w.]+ as \w+$", case["src"], 8))
   elif case.get("kind") == "law-fixed":
     part_fixed_law(ctx)
   elif case.get("kind") == "bundled":
